@@ -1,4 +1,5 @@
 """C10 — client multiplexing: distinct tags/fids, replies reach their own caller, no hang."""
+import os
 import vlib
 
 ID = "C10"
@@ -26,7 +27,7 @@ ASSUMPTIONS = [
     "C10_fid_fresh: the server binds a fid only by a successful binding request and unbinds it by a confirmed clunk/remove (C04); nothing is assumed about how requests fail",
 ]
 TRUSTED_BASE = [
-    "Coq 8.16.1 kernel, vm_compute (cases evaluation, refutation witnesses); CoqHammer is imported but no proof uses its axioms",
+    "Coq 8.16.1 kernel, vm_compute (cases evaluation, refutation witnesses)",
     "axioms: none (Print Assumptions: closed under the global context)",
     "go2coq ClientGen (sendRecv: registers before send / withdraws / does not recycle a withdrawn response; handleOne re-check; releaseFID policy; Get/Put sites)",
     "hand-written models Client/Pool.v, Client/Mux.v, Client/Fids.v, tied by harness/p9/c10_test.go + Client/MuxCases.v",
@@ -70,15 +71,20 @@ HEADER = ("From Coq Require Import NArith Arith List.\nFrom P9V Require Import C
 
 
 def run(ctx):
-    rc, out, obs = ctx.gotest("p9", "^TestVerifC10$", ["vh_common_test.go", "vhcl_common_test.go", "c10_test.go"], timeout=1500)
+    try:
+        marks = "recv_error_marks_dead : bool := true" in open(os.path.join(vlib.COQ, "gen", "ClientGen.v")).read()
+    except OSError:
+        marks = False
+    rc, out, obs = ctx.gotest("p9", "^TestVerifC10$", ["vh_common_test.go", "vhcl_common_test.go", "c10_test.go"], timeout=1500,
+                              env={"VERIF_C10_MARKS": "1" if marks else "0"})
     if rc != 0 or not obs:
         ctx.harness_broken("harness TestVerifC10 failed or hung (rc=%d)" % rc, out)
         if not obs:
             return
-    shard = 600
+    shard = 45
     shards = [list(range(i, min(i + shard, len(obs)))) for i in range(0, len(obs), shard)]
     texts = [HEADER % ";\n  ".join("(%s)" % to_case(obs[i]) for i in sh) for sh in shards]
-    res = ctx.coq_eval_shards("C10_cases", texts, ["M", "P"])
+    res = ctx.coq_eval_shards("C10_cases", texts, ["M", "P"], workers=12)
     nm = 0
     kinds = {}
     for o in obs:
